@@ -143,16 +143,20 @@ Definition g_addnode (g : gst) (n : N) : option (gst * res unit) :=
       | Some g2 => Some (mkG (g_au g2) (g_nname g2) (g_nop g2) (g_nouts g2) (g_foreign g2) (upd (g_in g2) n true) (g_vname g2), Ok tt)
       end
   end.
-Fixpoint g_addnodes (g : gst) (ns : list N) : option (gst * res unit) :=
+Fixpoint g_addnodes_go (g : gst) (ns : list N) : option (gst * res unit) :=
   match ns with
   | [] => Some (g, Ok tt)
   | n :: r =>
       match g_addnode g n with
       | None => None
-      | Some (g1, Raise e) => Some (g1, Raise e)      (* the list comprehension stops; earlier nodes stay named *)
-      | Some (g1, Ok _) => g_addnodes g1 r
+      | Some (g1, Raise e) => Some (g1, Raise e)
+      | Some (g1, Ok _) => g_addnodes_go g1 r
       end
   end.
+(* Graph.extend / insert_* since fix dff454e: every node is validated (_check_node_can_be_added) before any of
+   them is adopted or named; Graph.append is the one-node case *)
+Definition g_addnodes (g : gst) (ns : list N) : option (gst * res unit) :=
+  if existsb (g_foreign g) ns then Some (g, Raise ValueError) else g_addnodes_go g ns.
 
 Definition gstep (g : gst) (o : gop) : option (gst * res unit) :=
   match o with
@@ -233,6 +237,9 @@ with events_node (n : node) : list ev :=
 
 Definition idict := list (name * N).                      (* GraphInitializers.data, insertion order *)
 Record fstate := mkF {
+  f_vx : N -> N;                        (* everything of a Value that is not its name (type, shape, tensor object,
+                                           producer, uses, ownership flags), as an opaque token *)
+  f_nx : N -> N;                        (* everything of a Node that is not its name, as an opaque token *)
   f_rv : list name;                     (* self._reserved_value_names (fix 25cf9b5) *)
   f_rn : list name;                     (* self._reserved_node_names *)
   f_vn : N -> option name;              (* Value.name *)
@@ -318,18 +325,18 @@ Definition process_value (v : N) (s : fstate) : fres :=
       let known := match nm with Some n => negb (is_empty nm) && negb (mem n used) | None => false end in
       if known then
         (* name is unique so far: record it *)
-        (mkF (f_rv s) (f_rn s) (f_vn s) (f_nn s) (f_inits s) (v :: f_seen s) (f_vcnt s) (f_ncnt s)
+        (mkF (f_vx s) (f_nx s) (f_rv s) (f_rn s) (f_vn s) (f_nn s) (f_inits s) (v :: f_seen s) (f_vcnt s) (f_ncnt s)
              (((match nm with Some n => n | None => [] end) :: used) :: rest) (f_nscopes s) (f_mod s), None)
       else
         let pref := if is_empty nm then s_v else match nm with Some n => n | None => s_v end in
         match find_unique pref used (f_vcnt s) (f_rv s) with
         | None => (s, Some OtherError)
         | Some (new, used', cnt') =>
-            let s1 := mkF (f_rv s) (f_rn s) (f_vn s) (f_nn s) (f_inits s) (f_seen s) cnt' (f_ncnt s) (used' :: rest) (f_nscopes s) (f_mod s) in
+            let s1 := mkF (f_vx s) (f_nx s) (f_rv s) (f_rn s) (f_vn s) (f_nn s) (f_inits s) (f_seen s) cnt' (f_ncnt s) (used' :: rest) (f_nscopes s) (f_mod s) in
             match set_vname v new (f_vn s) (f_inits s) with
             | Raise e => (s1, Some e)
             | Ok (vn', inits') =>
-                (mkF (f_rv s) (f_rn s) vn' (f_nn s) inits' (v :: f_seen s) cnt' (f_ncnt s) (used' :: rest) (f_nscopes s) true, None)
+                (mkF (f_vx s) (f_nx s) (f_rv s) (f_rn s) vn' (f_nn s) inits' (v :: f_seen s) cnt' (f_ncnt s) (used' :: rest) (f_nscopes s) true, None)
             end
         end
   end.
@@ -351,14 +358,14 @@ Definition process_node_name (n : N) (s : fstate) : fres :=
       let nm := f_nn s n in
       let known := match nm with Some x => negb (is_empty nm) && negb (mem x used) | None => false end in
       if known then
-        (mkF (f_rv s) (f_rn s) (f_vn s) (f_nn s) (f_inits s) (f_seen s) (f_vcnt s) (f_ncnt s) (f_vscopes s)
+        (mkF (f_vx s) (f_nx s) (f_rv s) (f_rn s) (f_vn s) (f_nn s) (f_inits s) (f_seen s) (f_vcnt s) (f_ncnt s) (f_vscopes s)
              (((match nm with Some x => x | None => [] end) :: used) :: rest) (f_mod s), None)
       else
         let pref := if is_empty nm then s_node else match nm with Some x => x | None => s_node end in
         match find_unique pref used (f_ncnt s) (f_rn s) with
         | None => (s, Some OtherError)
         | Some (new, used', cnt') =>
-            (mkF (f_rv s) (f_rn s) (f_vn s) (upd (f_nn s) n (Some new)) (f_inits s) (f_seen s) (f_vcnt s) cnt' (f_vscopes s)
+            (mkF (f_vx s) (f_nx s) (f_rv s) (f_rn s) (f_vn s) (upd (f_nn s) n (Some new)) (f_inits s) (f_seen s) (f_vcnt s) cnt' (f_vscopes s)
                  (used' :: rest) true, None)
         end
   end.
@@ -371,7 +378,7 @@ Definition fx_step (e : ev) (s : fstate) : fres :=
       match f_vscopes s with
       | [] => (s, Some IndexError)
       | top :: _ =>
-          let s1 := mkF (f_rv s) (f_rn s) (f_vn s) (f_nn s) (f_inits s) (f_seen s) (f_vcnt s) (f_ncnt s)
+          let s1 := mkF (f_vx s) (f_nx s) (f_rv s) (f_rn s) (f_vn s) (f_nn s) (f_inits s) (f_seen s) (f_vcnt s) (f_ncnt s)
                         (top :: f_vscopes s) ([] :: f_nscopes s) (f_mod s) in
           fbind (process_values ins s1) (fun s2 =>
           fbind (process_values outs s2) (fun s3 =>
@@ -379,7 +386,7 @@ Definition fx_step (e : ev) (s : fstate) : fres :=
           else process_values (map snd (get_dict gid (f_inits s3))) s3))   (* tuple(initializers.values()) *)
       end
   | EExit =>
-      (mkF (f_rv s) (f_rn s) (f_vn s) (f_nn s) (f_inits s) (f_seen s) (f_vcnt s) (f_ncnt s)
+      (mkF (f_vx s) (f_nx s) (f_rv s) (f_rn s) (f_vn s) (f_nn s) (f_inits s) (f_seen s) (f_vcnt s) (f_ncnt s)
            (tl (f_vscopes s)) (tl (f_nscopes s)) (f_mod s), None)
   | ENode nid nins nouts =>
       fbind (process_node_name nid s) (fun s1 =>
@@ -411,20 +418,20 @@ Fixpoint collect_names (es : list ev) (vn nn : N -> option name) (inits : list (
 
 (* _fix_graph_names(graph_like): fresh seen/counters/scopes (the dummy bottom scope), the reserved names,
    then the traversal *)
-Definition fx_init (rv rn : list name) (vn nn : N -> option name) (inits : list (N * idict)) (m : bool) : fstate :=
-  mkF rv rn vn nn inits [] [] [] [[]] [[]] m.
-Definition fix_graph_names (g : graph) (vn nn : N -> option name) (inits : list (N * idict)) (m : bool) : fres :=
+Definition fx_init (vx nx : N -> N) (rv rn : list name) (vn nn : N -> option name) (inits : list (N * idict)) (m : bool) : fstate :=
+  mkF vx nx rv rn vn nn inits [] [] [] [[]] [[]] m.
+Definition fix_graph_names (g : graph) (vx nx : N -> N) (vn nn : N -> option name) (inits : list (N * idict)) (m : bool) : fres :=
   let '(rv, rn) := collect_names (events_graph g) vn nn inits in
-  fx_events (events_graph g) (fx_init rv rn vn nn inits m).
+  fx_events (events_graph g) (fx_init vx nx rv rn vn nn inits m).
 
 (* NameFixPass.call: main graph, then every function, each with fresh bookkeeping *)
 Fixpoint fix_all (gs : list graph) (s : fstate) : fres :=
   match gs with
   | [] => (s, None)
-  | g :: r => fbind (fix_graph_names g (f_vn s) (f_nn s) (f_inits s) (f_mod s)) (fix_all r)
+  | g :: r => fbind (fix_graph_names g (f_vx s) (f_nx s) (f_vn s) (f_nn s) (f_inits s) (f_mod s)) (fix_all r)
   end.
-Definition name_fix_pass (main : graph) (funcs : list graph) (vn nn : N -> option name) (inits : list (N * idict)) : fres :=
-  fix_all (main :: funcs) (fx_init [] [] vn nn inits false).
+Definition name_fix_pass (main : graph) (funcs : list graph) (vx nx : N -> N) (vn nn : N -> option name) (inits : list (N * idict)) : fres :=
+  fix_all (main :: funcs) (fx_init vx nx [] [] vn nn inits false).
 
 (* ================================================================== (C) rename_values *)
 Record rstate := mkR {
@@ -631,16 +638,18 @@ Definition a_agree (c : a_case) : bool :=
 
 (* (B) NameFixPass: outcome, modified flag (on Ok), all names, initializer dictionaries *)
 Definition b_case := (graph * list graph * list (N * option name) * list (N * option name) * list (N * idict)
-                      * list N * list N
-                      * (option exn * bool * list (option name) * list (option name) * list (N * idict)))%type.
+                      * list N * list N * list (N * N) * list (N * N)
+                      * (option exn * bool * list (option name) * list (option name) * list (N * idict) * list N * list N))%type.
 Definition b_agree (c : b_case) : bool :=
-  let '(main, funcs, vn, nn, inits, vids, nids, (err, md, evn, enn, einits)) := c in
-  let '(s, e) := name_fix_pass main funcs (of_alist None vn) (of_alist None nn) inits in
+  let '(main, funcs, vn, nn, inits, vids, nids, vx, nx, (err, md, evn, enn, einits, evx, enx)) := c in
+  let '(s, e) := name_fix_pass main funcs (of_alist 0 vx) (of_alist 0 nx) (of_alist None vn) (of_alist None nn) inits in
   option_eqb exn_eqb e err
   && (match e with None => Bool.eqb (f_mod s) md | Some _ => true end)
   && list_eqb oname_eqb (map (f_vn s) vids) evn
   && list_eqb oname_eqb (map (f_nn s) nids) enn
-  && inits_eqb (f_inits s) einits.
+  && inits_eqb (f_inits s) einits
+  && list_eqb N.eqb (map (f_vx s) vids) evx
+  && list_eqb N.eqb (map (f_nx s) nids) enx.
 
 (* (C) rename_values: outcome and the whole observable state afterwards (also after a Raise) *)
 Definition r_obs := (list (option name) * list (N * idict) * list bool * list (option N))%type.
